@@ -471,6 +471,9 @@ func pickJ(r *rng, l []string) string {
 	if r.pct(25) {
 		t = mutateText(r, t)
 	}
+	if r.pct(10) {
+		t = relayout(r, t)
+	}
 	return t
 }
 
@@ -697,6 +700,81 @@ func brokenTypeText(r *rng, self string, others []string) string {
 	}
 }
 
+// genAllOfChain: inheritance chains and diamonds (depth 3-4), valid or with one
+// clash, the parents registered as types and the root either one of the chain's ends
+// or an object that inherits itself.
+func genAllOfChain(r *rng) Project {
+	p := Project{Kind: "jschema", Name: []string{"root", "api.jst"}[r.n(2)]}
+	n := 3 + r.n(2)
+	names := namePool[:n]
+	clash := -1
+	if r.pct(30) {
+		clash = 1 + r.n(n-1)
+	}
+	diamond := r.pct(40)
+	for i, name := range names {
+		key := "k" + strconv.Itoa(i)
+		if i == clash {
+			key = "k0" // the same key as the base type: rejected when merged
+		}
+		head := ""
+		switch {
+		case i == 0:
+		case diamond && i == n-1 && n >= 4:
+			head = ` // {allOf: ["` + names[1] + `", "` + names[2] + `"]}`
+		case diamond && i == 2:
+			head = ` // {allOf: "` + names[0] + `"}`
+		default:
+			head = ` // {allOf: "` + names[i-1] + `"}`
+		}
+		extra := ""
+		if r.pct(30) {
+			extra = ",\n  \"opt" + strconv.Itoa(i) + "\": \"x\" // {optional: true}"
+		}
+		if r.pct(15) {
+			if head == "" {
+				head = ` // {additionalProperties: "string"}`
+			} else {
+				head = strings.Replace(head, "}", ", additionalProperties: true}", 1)
+			}
+		}
+		p.Types = append(p.Types, TypeSpec{Name: name, Kind: "j", Text: "{" + head + "\n  \"" + key + "\": " + strconv.Itoa(i) + extra + "\n}"})
+	}
+	last := names[n-1]
+	switch r.n(4) {
+	case 0:
+		p.Text = last
+	case 1:
+		p.Text = `{ // {allOf: "` + last + `"}` + "\n  \"own\": true\n}"
+	case 2:
+		p.Text = "{\n  \"a\": " + last + ",\n  \"b\": [" + names[1] + "]\n}"
+	default:
+		p.Text = `{ // {allOf: ["` + names[n-2] + `", "` + last + `"]}` + "\n  \"own\": 1\n}"
+	}
+	return p
+}
+
+// relayout changes how a text is laid out without (usually) changing what it says:
+// CRLF line ends, tabs for indentation, comment lines, blank lines.
+func relayout(r *rng, t string) string {
+	switch r.n(5) {
+	case 0:
+		return strings.ReplaceAll(t, "\n", "\r\n")
+	case 1:
+		return strings.ReplaceAll(t, "  ", "\t")
+	case 2:
+		lines := strings.Split(t, "\n")
+		i := r.n(len(lines))
+		c := r.pick([]string{"# a comment line", "  # indented comment", "", "   ", "# {min: 1}"})
+		lines = append(lines[:i:i], append([]string{c}, lines[i:]...)...)
+		return strings.Join(lines, "\n")
+	case 3:
+		return "\n" + t + "\n\n"
+	default:
+		return t + " # trailing comment"
+	}
+}
+
 func genMultiBroken(r *rng) Project {
 	p := Project{Kind: "jschema", Name: []string{"root", "schema.jst"}[r.n(2)]}
 	n := 2 + r.n(3)
@@ -727,6 +805,9 @@ func genMultiBroken(r *rng) Project {
 func genProject(r *rng, tornPct int) Project {
 	if (r.focus == "" || r.focus == "jschema") && r.pct(5) {
 		return genMultiBroken(r)
+	}
+	if (r.focus == "" || r.focus == "jschema") && r.pct(4) {
+		return genAllOfChain(r)
 	}
 	var p Project
 	switch c := r.n(100); {
@@ -787,6 +868,9 @@ func genProject(r *rng, tornPct int) Project {
 			p.Text = r.pick(corpus.JInvalid)
 		default:
 			p.Text = genSchemaText(r, names, enums)
+			if r.pct(10) {
+				p.Text = relayout(r, p.Text)
+			}
 		}
 		// bind every referenced name
 		seen := map[string]bool{}
